@@ -69,8 +69,9 @@ structure Config where
   c4 : Nat := 0
   deriving Repr, Inhabited
 
-def Config.stmts (cfg : Config) : List Stmt :=
-  cfg.items.filterMap fun | .stmt s => some s | .comment => none
+def stmtsOf (items : List PoItem) : List Stmt := items.filterMap fun | .stmt s => some s | .comment => none
+
+def Config.stmts (cfg : Config) : List Stmt := stmtsOf cfg.items
 
 /-! ### rendering -/
 
